@@ -9,7 +9,10 @@ ALPHABET = ['struct', 'union', 'enum', 'const', 'typedef', 'bytes', 'u32', 'u8',
             '-1', '<>', '<...>', '<@', '**']
 EXPRS = ['1/0', '7/2', '1/2', '(3+4)/2', '1<<-1', '1>>-1', '-1', '0', '-(-(3))', '1<<64', '1<<200', '(((1)))', '2*',
          '(', ')', '()', '1 2', 'UNDEFINED_NAME', '0x', '08', '1+', '-', '1--1', '1-(-1)', '2*/3', '1<<', '4>>1>>1',
-         '0/1', '5/5', '6/4*2', '1/(2-2)', '-5/2']
+         '0/1', '5/5', '6/4*2', '1/(2-2)', '-5/2',
+         # results far beyond any wire type (more decimal digits than int <-> str conversion accepts, memory-sized shifts)
+         '1<<20000', '1 << 100000000000', '3<<(1<<40)', '9' * 5000, '99999999999999999999*99999999999999999999',
+         '1<<63<<63<<63', '(1<<4000)>>3990', '0x' + 'F' * 4000]
 
 
 def tokens(text):
@@ -51,6 +54,21 @@ def expression_injections(text, rng, n):
     return out
 
 
+def expression_injections_xml(xml, rng, n):
+    """Replace the value of a constant / enumerator / discriminator / dimension attribute of isar XML by a hostile
+    expression (XML-escaped); isar evaluates these at model time through prophyc.calc."""
+    spots = [(m.start(2), m.end(2)) for m in re.finditer(r'\b(value|size|size2|discriminatorValue)="([^"]*)"', xml)]
+    out = []
+    for _ in range(n):
+        if not spots:
+            break
+        s, e = rng.choice(spots)
+        ex = rng.choice(EXPRS + ['shiftLeft(1, 99999999999)', 'bitMaskOr(1 << 70000, 1)', 'shiftLeft(shiftLeft(1, 4000), 4000)'])
+        ex = ex.replace('&', '&amp;').replace('<', '&lt;').replace('>', '&gt;').replace('"', '&quot;')
+        out.append(('isar-expression', xml[:s] + ex + xml[e:]))
+    return out
+
+
 STRUCTURAL = [
     ('self-recursive-struct', 'struct S { S x; };'),
     ('self-recursive-array', 'struct S { S x<>; };'),
@@ -64,6 +82,17 @@ STRUCTURAL = [
     ('enum-self', 'enum E { E_A = E_A };'),
     ('union-self', 'union U { 1: U u; };'),
     ('empty-struct', 'struct S { };'),
+] + [
+    # a definition that refers to itself (or to a later one that refers back), followed by every kind of use of it
+    ('recursive-%s-then-%s' % (dn, un), d + '\n' + u)
+    for dn, d in (('typedef-self', 'typedef T T;'), ('typedef-cycle', 'typedef B T;\ntypedef T B;'),
+                  ('typedef-of-self-struct', 'struct R { T x; };\ntypedef R T;'))
+    for un, u in (('sizer', 'struct S { T n; u8 x<@n>; };'), ('fixed-array', 'struct S { T x[2]; };'),
+                  ('optional', 'struct S { T* x; };'), ('dynamic-array', 'struct S { T x<>; };'),
+                  ('limited-array', 'struct S { T x<2>; };'), ('greedy-array', 'struct S { T x<...>; };'),
+                  ('union-arm', 'union U { 1: T x; };'), ('typedef', 'typedef T T2;\nstruct S { T2 x; };'),
+                  ('middle-member', 'struct S { u8 a; T t; u16 b; };'), ('nested-twice', 'struct M { T t; };\nstruct S { M m[2]; u8 z; };'))
+] + [
     ('empty-union', 'union U { };'),
     ('empty-enum', 'enum E { };'),
     ('empty-file', ''),
